@@ -303,8 +303,11 @@ func (l *lexer) backup() {
 
 // peek returns but does not consume the next rune in the input.
 func (l *lexer) peek() rune {
+	// Keep the width of the last consumed rune, backup relies on it.
+	width := l.width
 	r := l.next()
 	l.backup()
+	l.width = width
 	return r
 }
 
